@@ -47,7 +47,8 @@ Definition eval_un (u : unop) (a : Z) : Z :=
   end.
 
 (* Coq's [/] and [mod] on Z are floor division and the modulo that takes the divisor's sign
-   (restated as C12_floor_division / C12_modulo_sign in Properties/C12.v). *)
+   (restated as C12_floor_division_and_modulo_sign in Properties/C12.v; likewise C12_arithmetic_shifts,
+   C12_twos_complement_bit_operators, C12_bit_length for the other operators). *)
 Definition eval_bin (o : binop) (a b : Z) : value :=
   match o with
   | BAdd => Val (a + b)
